@@ -25,7 +25,9 @@ RULE = ('scripted models: exhaustive per-pass value sequences of one check varia
         'every solve_t / solve_period step. Non-trivial = at least 2 passes executed, or '
         'stop exactly at k=min_iter or k=max_iter, or an exception path; distinct by hash of the whole case.')
 TRUSTED = ['scripted-model subclass harness/scripted.py (same script is the Coq oracle)']
-ASSUMPTIONS = ['_evaluate and the hooks modify only variable values (not status/iterations) — the shape of the model\'s oracles',
+ASSUMPTIONS = ['the model and the correspondence are float64; series of other dtypes (int64, int8, uint8, uint16, float32) are run against the oracle only',
+               'the iteration number handed to the hooks (0 for the pre-hook) is recorded by the harness but is not part of the model\'s events: not compared',
+               '_evaluate and the hooks modify only variable values (not status/iterations) — the shape of the model\'s oracles',
                't lies inside the span (-n <= t < n)',
                'max_iter >= 0 for the clause "iterations[t] = max_iter on failure": a negative max_iter (accepted when min_iter <= max_iter) '
                'records 0 (C02_negative_max_iter, C02_failed_iterations_eq_max_iter_refuted); the oracle uses max(max_iter, 0)',
@@ -36,6 +38,8 @@ CASE_TIMEOUT = 20
 
 
 def impl(case):
+    if case.get('kind') == 'dtype':
+        return impl_dtype(case)
     if case.get('kind') == 'parsed':
         from props import C06 as c06
         return c06.impl_parsed(case)
@@ -159,6 +163,9 @@ def gen(rng, tier):
     # the real generated _evaluate runs; long runs (max_iter up to 40, tol 1e-10 / 1e-3) so that many passes are compared
     for _ in range(300 if tier == 'quick' else 3000):
         fixed.append(parsed_case(rng))
+    # series that are not float64 (int64, int8, uint8, uint16, float32): oracle only — the model and K are float64
+    for _ in range(120 if tier == 'quick' else 1200):
+        fixed.append(dtype_case(rng))
     # keyword defaults: every keyword omitted in turn (and all of them) on scripts whose outcome depends on that default
     for omit in sc.default_probe_omissions():
         for name, ps in sc.default_probe_scripts(1).items():
@@ -180,7 +187,7 @@ def span_cases(rng, tier):
     pal = sc.PALETTE_FINITE
     reps = 1 if tier == 'quick' else 4
     for _ in range(reps):
-        for st in [t for t in sc.SPAN_KIND if t not in sc.RX_KIND]:
+        for st in [t for t in sc.SPAN_KIND if t not in sc.RX_KIND and t != 'pd_interval']:      # IntervalIndex: kept finding of C05
             for n in range(1, 5):
                 for spec in sc.label_specs(st, n)[1:]:
                     mx = rng.randint(0, 4)
@@ -226,13 +233,96 @@ def parsed_case(rng):
     return {'kind': 'parsed', 'equations': eqs, 'n': n, 't': t, 'opts': sc.random_omit(rng, o, 0.1), 'init': ini}
 
 
+# --------------------------------------------------------------------------- models whose series are NOT float64 (oracle only)
+DTYPES = ['int64', 'uint8', 'float32', 'int8', 'uint16']
+DTYPE_EQS = ['Y = X', 'A = B\nB = C', 'Y = X\nZ = Y']
+KNOWN_UNSIGNED_SIG = 'C02|convergence-test|unsigned-dtype-wraps'
+
+
+def dtype_case(rng):
+    eqs = rng.choice(DTYPE_EQS)
+    n = 3
+    p = rng.choice([1, 2])
+    names = sorted(set(x for x in eqs.replace('\n', ' ').replace('=', ' ').split()))
+    mx = rng.choice([1, 2, 3, 5, 100])
+    o = dict(min_iter=rng.choice([0, 0, 1, 2]), max_iter=mx, tol=lib.fhex(float(rng.choice([3, 2, 1, 10]))), offset=0, failures='ignore', errors='raise',
+             catch_first_error=rng.random() < 0.5)
+    o['min_iter'] = min(o['min_iter'], mx)
+    return {'kind': 'dtype', 'equations': eqs, 'dtype': rng.choice(DTYPES), 'n': n, 't': p if rng.random() < 0.7 else p - n, 'opts': o,
+            'init': {nm: [rng.randint(0, 9) for _ in range(n)] for nm in names}}
+
+
+def impl_dtype(case):
+    """a parser-built model with integer / unsigned / single-precision series; the check values after every pass are recorded exactly"""
+    import fsic
+    rec = {'log': [], 'passvecs': []}
+    Base = fsic.build_model(fsic.parse_model(case['equations']))
+
+    class Rec(Base):
+        def solve_t_before(self, t, **kw):
+            rec['log'].append(['before', int(t if t >= 0 else t + len(self.span)), int(kw.get('iteration'))])
+            super().solve_t_before(t, **kw)
+
+        def _evaluate(self, t, **kw):
+            rec['log'].append(['pass', int(t if t >= 0 else t + len(self.span)), int(kw.get('iteration'))])
+            try:
+                super()._evaluate(t, **kw)
+            finally:
+                rec['passvecs'].append([self.__dict__['_' + nm][t].item() for nm in self.check])
+
+        def solve_t_after(self, t, **kw):
+            rec['log'].append(['after', int(t if t >= 0 else t + len(self.span)), int(kw.get('iteration'))])
+            super().solve_t_after(t, **kw)
+    n = case['n']
+    m = Rec(range(n), dtype=getattr(np, case['dtype']))
+    for nm, vals in case['init'].items():
+        if nm in m.names:
+            m.__dict__['_' + nm][:] = vals
+    p = case['t'] if case['t'] >= 0 else case['t'] + n
+    c0 = [m.__dict__['_' + nm][p].item() for nm in m.check]
+    try:
+        out = ['ret', bool(m.solve_t(case['t'], **sc.solve_kwargs(case['opts'])))]
+    except Exception as e:
+        c = e.__cause__
+        out = ['raise', type(e).__name__, type(c).__name__ if c is not None else None]
+    return {'out': out, 'c0': c0, 'passvecs': rec['passvecs'], 'log': rec['log'], 'status': [str(x) for x in m.__dict__['_status']],
+            'iters': [int(x) for x in m.__dict__['_iterations']], 'series_dtype': str(m.__dict__['_' + m.check[0]].dtype)}
+
+
+def oracle_dtype(case, obs):
+    """the statement with EXACT arithmetic on the recorded values: first pass k in [max(1,min_iter), max_iter] at which every check
+    variable moved by strictly less than tol in absolute value"""
+    o = case['opts']
+    p = case['t'] if case['t'] >= 0 else case['t'] + case['n']
+    if obs['out'][0] == 'raise' and obs['out'][1] != 'NonConvergenceError':
+        return []                                   # an evaluation that raises (overflow warning under catch_first_error ...): C06
+    tol = lib.unhex(o['tol'])
+    seq = [obs['c0']] + obs['passvecs']
+    m = len(obs['passvecs'])
+    K = None
+    for k in range(max(1, o['min_iter']), min(m, o['max_iter']) + 1):
+        if all(abs(a - b) < tol for a, b in zip(seq[k], seq[k - 1])):
+            K = k
+            break
+    got = (obs['out'], obs['status'][p], obs['iters'][p], m)
+    exp = (['ret', True], '.', K, K) if K is not None else (['ret', False], 'F', o['max_iter'], o['max_iter'])
+    if got == exp:
+        return []
+    what = ('%s model %r, solve_t(%d, tol=%g, min_iter=%d, max_iter=%d): check values %s; expected %s, got %s'
+            % (case['dtype'], case['equations'], case['t'], tol, o['min_iter'], o['max_iter'], seq, exp, got))
+    if case['dtype'].startswith('uint'):
+        return [{'sig': KNOWN_UNSIGNED_SIG, 'what': 'the convergence test subtracts in the unsigned dtype of the series, so a downward move wraps '
+                 'around (4 - 5 = 255 for uint8) and is not recognised as smaller than tol; ' + what}]
+    return [{'sig': 'C02|dtype|converged-at-k', 'what': what}]
+
+
 def view(case, obs):
     """the scripted-format case an observation is about (parser-built models: derived from the recorded run)"""
     return obs['as_scripted'] if case.get('kind') == 'parsed' else case
 
 
 def correspond(cases, obs, tag, tier):
-    one = [(i, view(c, o), o) for i, (c, o) in enumerate(zip(cases, obs)) if c.get('kind') not in ('sp', 'hist') and sc.k_comparable(c)]
+    one = [(i, view(c, o), o) for i, (c, o) in enumerate(zip(cases, obs)) if c.get('kind') not in ('sp', 'hist', 'dtype') and sc.k_comparable(c)]
     hist = [(i, c, o) for i, (c, o) in enumerate(zip(cases, obs)) if c.get('kind') == 'hist' and sc.k_comparable(c)]
     sp = [(i, c, o) for i, (c, o) in enumerate(zip(cases, obs)) if c.get('kind') == 'sp' and sc.k_comparable(c)]
     bad, errs = [], []
@@ -261,7 +351,7 @@ def explain(case, obs):
 
 def guard(case, obs):
     """Inputs inside the guard class of a kept finding: the model mirrors a defect there, K is silent."""
-    return False      # finding #1 (max_iter = 0) was repaired; no kept finding of C02 remains
+    return case.get('kind') == 'dtype'      # non-float64 series: the model is float64, only the oracle speaks (kept finding: unsigned dtypes)
 
 
 def _pos(case):
@@ -270,6 +360,8 @@ def _pos(case):
 
 def oracle(case, obs):
     """The C02 statement evaluated directly on the implementation's observations."""
+    if case.get('kind') == 'dtype':
+        return oracle_dtype(case, obs)
     if case.get('kind') == 'sp':
         return oracle_sp(case, obs)
     if case.get('kind') == 'hist':
@@ -408,6 +500,8 @@ def nontrivial(case, obs):
 
 
 def bucket(case, obs):
+    if case.get('kind') == 'dtype':
+        return 'dtype/%s/%s' % (case['dtype'], obs['out'][1] if obs['out'][0] == 'raise' else obs['status'][case['t']])
     if case.get('kind') == 'hist':
         return 'hist/%d calls/%s' % (len(case['calls']), ''.join(sorted(set(obs['status']))))
     o = case['opts']
@@ -426,7 +520,7 @@ def bucket(case, obs):
 
 
 def shrink_candidates(case):
-    if case.get('kind') in ('sp', 'parsed'):
+    if case.get('kind') in ('sp', 'parsed', 'dtype'):
         return
     if case.get('kind') == 'hist':
         for i in reversed(range(len(case['calls']))):
